@@ -10,7 +10,7 @@ pub const ITEM_NAMES: &[&str] = &[
     "IdCard", "Item2", "UserProfile", "AccountId", "RawHttp",
 ];
 pub const VARIANT_NAMES: &[&str] =
-    &["First", "Second", "Third", "WithData", "Http2Frame", "V2", "A", "Empty", "SomeLongVariantName", "Node", "Leaf", "Ok2", "Default", "Case"];
+    &["First", "Second", "Third", "WithData", "Http2Frame", "V2", "A", "Empty", "SomeLongVariantName", "Node", "Leaf", "Ok2", "Default", "Case", "IOError", "XMLDocument", "HTTPStatus"];
 pub const FIELD_NAMES: &[&str] = &[
     "id", "name", "value", "count", "user_id", "created_at", "is_active", "first_name", "a", "b2", "x", "long_field_name_here", "item_list",
     "payload", "kind", "data", "flag", "total_count_2", "k8s_cluster", "use_2fa", "p2p_port",
@@ -171,10 +171,19 @@ pub fn ty_strategy(ctx: &TyCtx, depth: u32) -> BoxedStrategy<Ty> {
             alts.push((
                 1,
                 inner.clone().prop_map(|t| match &t {
-                    Ty::Vec(_) => Ty::Qual(vec!["std".into(), "vec".into()], Box::new(t)),
+                    Ty::Vec(ref i) => Ty::Qual(if i.rust().len() % 3 == 0 { vec!["alloc".into(), "vec".into()] } else { vec!["std".into(), "vec".into()] }, Box::new(t)),
                     Ty::Map(ref k, _) if k.rust().len() % 3 == 0 => Ty::Qual(vec!["@hasher".into()], Box::new(t)),
                     Ty::Map(..) => Ty::Qual(vec!["std".into(), "collections".into()], Box::new(t)),
-                    Ty::Opt(_) => Ty::Qual(vec!["std".into(), "option".into()], Box::new(t)),
+                    // `std::`, `core::`, the absolute `::core::` (macro-generated code) and a `use std::option;` style path
+                    Ty::Opt(ref i) => Ty::Qual(
+                        match i.rust().len() % 4 {
+                            0 => vec!["std".into(), "option".into()],
+                            1 => vec!["core".into(), "option".into()],
+                            2 => vec!["".into(), "core".into(), "option".into()],
+                            _ => vec!["option".into()],
+                        },
+                        Box::new(t),
+                    ),
                     Ty::User { .. } => Ty::Qual(vec!["crate".into(), "types".into()], Box::new(t)),
                     Ty::Prim(Prim::String) => Ty::Qual(vec!["std".into(), "string".into()], Box::new(t)),
                     Ty::Prim(Prim::I54 | Prim::U53) => Ty::Qual(vec!["typeshare".into()], Box::new(t)),
